@@ -28,7 +28,7 @@ Qed.
 Theorem reorder_var_min L s var al r s' :
   Gd L s → nozero s → levels_ok s al → is_Some (vars s !! var) →
   reorder_var var al s = (r, s') →
-  r = Err EOracle ∨
+  r = Err EOracle ∨ r = Err ERuntime ∨
   ∃ k al' lv, r = Ok (k, al') ∧ vars s !! var = Some lv ∧
     Stp L s s' ∧ levels_ok s' al' ∧ vperm (mv lv k) s s' ∧ k < nvars s ∧
     (* every level was visited, and the final table is no larger than the
@@ -69,7 +69,7 @@ Proof.
                                       then ret ()
                                       else raise EAssert)
                                      (λ _ : (), ret (k, al2)))))))) s = (r, s') →
-    r = Err EOracle ∨
+    r = Err EOracle ∨ r = Err ERuntime ∨
     ∃ k al' lv0, r = Ok (k, al') ∧ Some lv = Some lv0 ∧ Stp L s s' ∧
       levels_ok s' al' ∧ vperm (mv lv0 k) s s' ∧ k < nvars s ∧
       (∀ p, p < nvars s → ∃ v, Visited L s lv0 p v ∧ len s' ≤ v) ∧
@@ -79,15 +79,17 @@ Proof.
     (* first shift: to the nearer end *)
     destruct (shift lv start al s) as [r1 sA] eqn:E1.
     destruct (shift_spec L s lv start al r1 sA HG Hal Hlvn ltac:(lia) E1)
-      as [->|(sz1&alA&->&HSA&HalA&HpA&_)].
+      as [->|[->|(sz1&alA&->&HSA&HalA&HpA&_)]].
     { rewrite (bind_err _ _ _ _ _ E1). intros [= <- <-]. by left. }
+    { rewrite (bind_err _ _ _ _ _ E1). intros [= <- <-]. by right; left. }
     rewrite (bind_ok _ _ _ _ _ E1). cbv beta iota.
     pose proof HSA as (HGA&HnA&_).
     (* second shift: the full sweep *)
     destruct (shift start end_ alA sA) as [r2 sB] eqn:E2.
     destruct (shift_spec L sA start end_ alA r2 sB HGA HalA ltac:(lia) ltac:(lia) E2)
-      as [->|(sizes&alB&->&HSB&HalB&HpB&HVis&Hkeys&Hnil)].
+      as [->|[->|(sizes&alB&->&HSB&HalB&HpB&HVis&Hkeys&Hnil)]].
     { rewrite (bind_err _ _ _ _ _ E2). intros [= <- <-]. by left. }
+    { rewrite (bind_err _ _ _ _ _ E2). intros [= <- <-]. by right; left. }
     rewrite (bind_ok _ _ _ _ _ E2). cbv beta iota.
     pose proof HSB as (HGB&HnB&_).
     assert (HSsB : Stp L s sB) by (by apply (Stp_trans L s sA sB)).
@@ -102,7 +104,7 @@ Proof.
       intros l _. by rewrite mv_mv. }
     case_decide as Hsz.
     { (* a single variable *)
-      intros [= <- <-]. right. exists lv, alB, lv.
+      intros [= <- <-]. right. right. exists lv, alB, lv.
       assert (start = end_) as Ese.
       { destruct (decide (start = end_)) as [|Hne]; [done|exfalso].
         pose proof (Hkeys Hne lv Hbt) as Hk. rewrite Hsz in Hk. by apply elem_of_nil in Hk. }
@@ -136,8 +138,9 @@ Proof.
     (* third shift: back to the best position *)
     destruct (shift end_ k alB sB) as [r3 sC] eqn:E3.
     destruct (shift_spec L sB end_ k alB r3 sC HGB HalB ltac:(lia) ltac:(lia) E3)
-      as [->|(sz3&alC&->&HSC&HalC&HpC&_)].
+      as [->|[->|(sz3&alC&->&HSC&HalC&HpC&_)]].
     { rewrite (bind_err _ _ _ _ _ E3). intros [= <- <-]. by left. }
+    { rewrite (bind_err _ _ _ _ _ E3). intros [= <- <-]. by right; left. }
     rewrite (bind_ok _ _ _ _ _ E3). cbv beta iota. cbn [bind get].
     assert (HSsC : Stp L s sC) by (by apply (Stp_trans L s sB sC)).
     assert (HpsC : vperm (fun l => mv end_ k (mv start end_ (mv lv start l))) s sC)
@@ -160,7 +163,7 @@ Proof.
       rewrite (visited_size L s lv lv v s HG Hz HV (Stp_refl L s HG)) in Hv; [done|].
       apply (vperm_ext (fun l => l)); [done| |apply vperm_id]. intros l _. by rewrite mv_id. }
     rewrite bool_decide_eq_true_2 by done. rewrite (bind_ok _ _ sC tt sC) by done.
-    intros [= <- <-]. right. exists k, alC, lv. split_and!; try done.
+    intros [= <- <-]. right. right. exists k, alC, lv. split_and!; try done.
     - apply (vperm_ext (fun l => mv end_ k (mv start end_ (mv lv start l)))); [done| |done].
       intros l _. by rewrite !mv_mv.
     - intros p sq Hp HSq Hpq. destruct (Hminall p Hp) as (v&HV&Hv).
